@@ -215,3 +215,18 @@ func init() {
 		rule("R6-object-provenance", ruleObjProvenance("SearchPromisesRequest", "SearchSchedulesRequest")).
 		rule("R6-cas", ruleCAS("SearchPromises"))
 }
+
+func init() {
+	regProp("C15",
+		[]string{
+			"every switch over a closed kernel enum (StatusCode, request Kind, promise/task state) whose default panics lists every constant of the enum (R11) — in particular StatusCode.String and the gRPC code table",
+			"HTTP code = status/100, an intended HTTP code for all 30 constants; each gRPC outcome flag compares the status of its own kind with the constant that denotes the flagged outcome and that the kind's coroutine can produce (R13)",
+			"for each request kind both front ends submit it, populate the same fields of the kernel request, and a coroutine is registered for it; every HTTP handler path writes exactly one reply (R10)",
+		},
+		[]string{"wire encoding by gin/grpc/protobuf", "correspondence of the *values* each protocol puts into a field beyond the field set (value-level round trip is C20)"}).
+		rule("R11-exhaustive", ruleExhaustive(nil)).
+		rule("R13-grpc-flags", ruleGrpcFlags).
+		rule("R13-http-code", ruleHttpCode).
+		rule("R13-front-end-siblings", ruleFrontEndSiblings).
+		rule("R10-http-reply-once", ruleHttpReplyOnce)
+}
